@@ -179,7 +179,7 @@ func H_C15_copy() {
 		vAssert(d.ctype == "text/src" && d.metadata["k"] == "v", "copy:user-metadata-copied")
 	}
 	var rr *storage.RewriteResponse
-	for _, b := range w.bodies {
+	for _, b := range w.all() {
 		if x, ok := b.(*storage.RewriteResponse); ok {
 			rr = x
 		}
@@ -216,7 +216,7 @@ func H_C15_copy_race() {
 	vJoin()
 	vAssert(w.code == http.StatusOK, "copy-race:existing-source-gives-200")
 	var rr *storage.RewriteResponse
-	for _, b := range w.bodies {
+	for _, b := range w.all() {
 		if x, ok := b.(*storage.RewriteResponse); ok {
 			rr = x
 		}
